@@ -105,7 +105,7 @@ def drain_relax():
     return log
 
 
-def encode_event(cd, id_, src, orig=None):
+def encode_event(cd, id_, src, orig=None, sem_of=None):
     """cd.to_code() on the real library, recorded"""
     from code_data import CodeData
 
@@ -114,11 +114,15 @@ def encode_event(cd, id_, src, orig=None):
     values_by_tok = {}
     nested_cache = {}
 
+    sem_of_tok = {}
+
     def nested_tok(v):
         k = id(v)
         if k not in nested_cache:
             try:
-                nested_cache[k] = it.tok(v.to_code())
+                nc = v.to_code()
+                nested_cache[k] = it.tok(nc)
+                sem_of_tok[nested_cache[k]] = it.semtok(nc)
             except BaseException:  # noqa
                 nested_cache[k] = -2
             drain_relax()
@@ -156,6 +160,8 @@ def encode_event(cd, id_, src, orig=None):
     full = dict(D._LIB_DEFAULTS)
     full.update(d)
     e["d"] = full
+    # nested code constants by meaning: per instruction the meaning token of a code constant, else -1
+    e["ksem"] = [sem_of_tok.get(ins[2], -1) if ins[1] == "K" else -1 for ins in full["instrs"]]
     # key / ==-class of every value token that occurs in the data
     from code_data._constants import constant_key  # noqa: F401  (not used: keys are computed independently)
 
@@ -183,6 +189,17 @@ def encode_event(cd, id_, src, orig=None):
         km.append([t, it.key(v) if not isinstance(v, CodeData) else -1000 - pe.cls(v), 100000 + pe.cls(v)])
         if type(v) is str:
             str_toks.append(t)
+    # the code object this data was decoded (and normalised) from, as CPython reads it (C05/C06)
+    e["has_c0"] = sem_of is not None
+    e["c0"] = D.cpy_reading(sem_of, it) if sem_of is not None else EMPTY_C
+    if sem_of is not None:
+        try:
+            n1 = cd.normalize()
+            e["idem"] = {"ran": True, "eq": n1 == cd, "hash": hash(n1) == hash(cd)}
+        except BaseException as ex:  # noqa
+            e["idem"] = {"ran": True, "eq": False, "hash": False}
+    else:
+        e["idem"] = {"ran": False, "eq": False, "hash": False}
     e["keymap"] = km
     e["str_toks"] = str_toks
     e["none_tok"] = none_tok
@@ -218,7 +235,7 @@ def encode_event(cd, id_, src, orig=None):
 
 EMPTY_C = dict(
     units=[], names=[], varnames=[], cellvars=[], freevars=[], consts=[], name_keys=[], varname_keys=[], cellvar_keys=[],
-    const_keys=[], none_key=-1, const_is_str=[], const_is_code=[], table=[], first=0, argcount=0, posonly=0, kwonly=0,
+    const_keys=[], consts_sem=[], none_key=-1, const_is_str=[], const_is_code=[], table=[], first=0, argcount=0, posonly=0, kwonly=0,
     flags=[], nlocals=0, stacksize=0, name=-1, filename=-1, cpy_lines=[], dis=[],
 )
 
@@ -292,7 +309,7 @@ def corpus_to_file(files, path, optimize=0, max_units=4000, mode="exec", normali
             ev["rt"]["inner_entry"] = entry_inside_instruction(c)
             evs.append(ev)
             if normalized:
-                ev, _ = encode_event(cd.normalize(), id_ + ":norm", "normalized")
+                ev, _ = encode_event(cd.normalize(), id_ + ":norm", "normalized", sem_of=c)
                 evs.append(ev)
     st["events"] = len(evs)
     _dump(evs, path)
@@ -323,7 +340,7 @@ def sources_to_file(sources, path, normalized=True):
             ev["rt"]["inner_entry"] = entry_inside_instruction(c)
             evs.append(ev)
             if normalized:
-                ev, _ = encode_event(cd.normalize(), id_ + ":norm", "normalized")
+                ev, _ = encode_event(cd.normalize(), id_ + ":norm", "normalized", sem_of=c)
                 evs.append(ev)
     _dump(evs, path)
     return {"events": len(evs), "uncompilable": bad}
